@@ -391,6 +391,13 @@ func init() {
 			if tier == "thorough" {
 				rpb = -1
 			}
+			sd := 2
+			if tier == "thorough" {
+				sd = 3
+			}
+			for _, sp := range [][2]int{{1, 0}, {0, 1}, {2, 0}, {3, 0}, {0, 3}, {1, 2}} {
+				tasks = append(tasks, Task{Level: "spelling", Name: fmt.Sprintf("spelling %d then %d", sp[0], sp[1]), Fn: c07SpellingTask(defaultCfg, sp[0], sp[1], sd)})
+			}
 			rcfgs := []Cfg{defaultCfg}
 			if tier == "thorough" {
 				bt := defaultCfg
@@ -691,4 +698,92 @@ func replayRaceCrash(raw json.RawMessage) {
 		os.Exit(1)
 	}
 	fmt.Println("no violation on this tree")
+}
+
+// ---- a crash between Merge and adoption, recovery under ANOTHER spelling of the directory path ------------------
+// The process dies after Merge has finished (the merge is pending). The directory is then opened under a different
+// spelling of the same path, used (deletes, overwrites, a second merge, restarts), and later opened under the first
+// spelling again: the pending merge is adopted exactly once, by whichever Open comes first, and never over newer data.
+func c07SpellingTask(cfg Cfg, s1, s2 int, depth int) func(res *TaskResult) {
+	return func(res *TaskResult) {
+		alpha := c07Alphabet(cfg)
+		script := []Op{{K: "del", Key: "a"}, {K: "put", Key: "b", VC: "S"}, {K: "put", Key: "a", VC: "L"}, {K: "merge", Arg: 1}, {K: "restart"},
+			{K: "put", Key: "a", VC: "S"}, {K: "restartslash", Arg: s1}, {K: "restart"}, {K: "restartslash", Arg: s2}}
+		if s1 == 0 {
+			script[6] = Op{K: "restartslash", Arg: -1}
+		}
+		n := 0
+		enumSeq(alpha, depth, depth, nil, func(hist []Op) bool {
+			n++
+			progressTick.Add(1)
+			beginExecution()
+			w := NewWorld(cfg, keysAB)
+			w.DirSpell = s1
+			res.Execs++
+			fail := func(detail string) bool {
+				ops := append(append(append([]Op{}, hist...), Op{K: "merge", Arg: 1}), script...)
+				addViolation(res, &Violation{Prop: "C07", Clause: "spelling", Sig: fmt.Sprintf("spelling:%d>%d", s1, s2),
+					Detail: fmt.Sprintf("cfg=%s history under spelling %d [%s; merge(,1)], process death, recovery under spelling %d followed by [%s]\n%s", cfg, s1, traceString(hist), s2, traceString(script), detail),
+					Replay: mustJSON(map[string]any{"engine": "spelling", "property": "C07", "cfg": cfg, "s1": s1, "s2": s2, "hist": hist, "trace": traceString(ops)})})
+				return false
+			}
+			if err := w.Open(); err != nil {
+				w.Destroy()
+				return true
+			}
+			okRun := true
+			for _, op := range append(append([]Op{}, hist...), Op{K: "merge", Arg: 1}) {
+				if ar := w.Apply(op); (ar.Err != nil && op.K != "merge") || w.Dead {
+					okRun = false
+					break
+				}
+				res.Transitions++
+			}
+			if !okRun {
+				w.Destroy()
+				return true
+			}
+			want := copyModel(w.Model)
+			snap := takeSnap(w.Root) // process death: nothing is closed
+			w.Destroy()
+			imgSeq++
+			root := filepath.Join(scratchRoot(), fmt.Sprintf("spell%d", imgSeq))
+			defer os.RemoveAll(root)
+			if err := snap.materialize(root); err != nil {
+				return true
+			}
+			w2 := &World{Cfg: cfg, Root: root, Dir: filepath.Join(root, "db"), Model: copyModel(want), Keys: keysAB, Cnt: map[string]int64{}, Hist: map[string]map[string]bool{}, DirSpell: s2}
+			defer func() {
+				if w2.DB != nil && !w2.Dead {
+					w2.Close()
+				}
+			}()
+			res.Evals++
+			if err := w2.Open(); err != nil {
+				return fail("recovery Open failed: " + panicDetail(err))
+			}
+			if c, d := w2.CheckReads(); c != "" {
+				return fail("after the recovery Open: " + d)
+			}
+			w2.Step = 50
+			for i, op := range script {
+				if op.K == "restartslash" && op.Arg == -1 {
+					op.Arg = 0
+					w2.DirSpell = 1 // toggles to 0
+				}
+				ar := w2.Apply(op)
+				res.Transitions++
+				if (ar.Err != nil && op.K != "merge") || ar.Clause != "" || w2.Dead {
+					return fail(fmt.Sprintf("step %d %s of the recovery script: %s %s", i, op, errClass(ar.Err), ar.Detail))
+				}
+				if c, d := w2.CheckReads(); c != "" {
+					return fail(fmt.Sprintf("after step %d %s of the recovery script (spelling now %d): %s; model %s", i, op, w2.DirSpell, d, modelString(w2.Model)))
+				}
+			}
+			res.States = append(res.States, w2.StateHash())
+			res.Nontrivial++
+			return true
+		})
+		res.Samples = append(res.Samples, fmt.Sprintf("%s: %d histories (depth <= %d) + merge under spelling %d, death, recovery script under spelling %d", cfg, n, depth, s1, s2))
+	}
 }
